@@ -1,8 +1,9 @@
 import Driver.ExprOps
+import Driver.IntervalOps
 
 open Driver
 
-def allHandlers : List (String × Handler) := exprHandlers
+def allHandlers : List (String × Handler) := exprHandlers ++ intervalHandlers
 
 def splitArrow (toks : List String) : List String × List String :=
   (toks.takeWhile (· ≠ "=>"), (toks.dropWhile (· ≠ "=>")).drop 1)
